@@ -500,6 +500,10 @@ func (a *auth) redactionRules(ev *Ev) (bool, string) {
 }
 
 func (a *auth) powerLevelRules(ev *Ev) (bool, string) {
+	if u := ev.Content.Get("users"); u != nil && u.K == Null {
+		// "if the users property in content is not an object ..., reject": in every version, for the event under test
+		return false, "4:pl-content-invalid"
+	}
 	np, s := ParsePL(a.t, ev.Content)
 	if s == plAbstain {
 		a.abstain = true
